@@ -271,6 +271,67 @@ theorem instanciateRaw_bridge (raw : Raw) :
   obtain ⟨vs, e, f, c⟩ := raw
   cases c <;> cases f <;> cases e <;> simp [hasKind]
 
+/-- whatever the `dim` override, the typed mesh is built around the vertex container of the raw data (shared), and the override can
+only RAISE the class above the dimensionality of the data -/
+theorem instanciateRaw_shares (raw : Raw) (d : Option Int) (k : Int) (m : Mesh)
+    (h : Generated.C06Src.instanciateRaw raw d = some (k, m)) : m.verts = raw.verts ∧ Generated.C06Src.rawDim raw ≤ k := by
+  unfold Generated.C06Src.instanciateRaw at h
+  dsimp only at h
+  split_ifs at h with h0 h1 h2 h3 <;> simp only [Option.some.injEq, Prod.mk.injEq, reduceCtorEq] at h
+  · obtain ⟨rfl, rfl⟩ := h; exact ⟨rfl, h0 ▸ Int.le_max_right _ _⟩
+  · obtain ⟨rfl, rfl⟩ := h; exact ⟨rfl, h1 ▸ Int.le_max_right _ _⟩
+  · obtain ⟨rfl, rfl⟩ := h; exact ⟨rfl, h2 ▸ Int.le_max_right _ _⟩
+  · obtain ⟨rfl, rfl⟩ := h; exact ⟨rfl, h3 ▸ Int.le_max_right _ _⟩
+
+/-- `_prepare_vertices` as written, on a mesh whose vertices are all 3-D floats (nothing to pad, nothing to convert): every index is
+rebound to a VIEW of the object already stored there — no cell changes, the prepared mesh keeps sharing memory with whatever the raw
+rows shared it with (this is why `from_arrays` / `merge` copy first) -/
+theorem prepareVertices_float3 (planar intKind : Nat → Bool) (mi : Nat) (s : State)
+    (hp : ∀ i, planar i = false) (hk : ∀ i, intKind i = false) :
+    Generated.C06Src.prepareVertices planar intKind mi s = s := by
+  unfold Generated.C06Src.prepareVertices
+  have : (fun (s : State) (i : Nat) =>
+      let v := VRef.view
+      let v := if planar i then VRef.new else v
+      let v := if intKind i then VRef.new else v
+      storeVRef s mi i v) = fun s _ => s := by
+    funext s i; simp [hp i, hk i, storeVRef]
+  rw [this]
+  induction (idVertices s mi) generalizing s with
+  | nil => rfl
+  | cons a t ih => simp only [List.foldl_cons]; exact ih s
+
+/-- … and on planar or integer input every vertex gets a NEW array with the same coordinates: the model's one-shot rebinding with
+the identity map (fresh cells: the prepared mesh no longer shares memory with the caller's rows) -/
+theorem prepareVertices_all_new (planar intKind : Nat → Bool) (mi : Nat) (s : State) (hwf : WF s)
+    (hn : ∀ i, planar i = true ∨ intKind i = true) :
+    Generated.C06Src.prepareVertices planar intKind mi s = mapRebind (fun p => p) s mi := by
+  unfold Generated.C06Src.prepareVertices
+  have : (fun (s : State) (i : Nat) =>
+      let v := VRef.view
+      let v := if planar i then VRef.new else v
+      let v := if intKind i then VRef.new else v
+      storeVRef s mi i v) = fun s i => setVertex s mi i (vertexAt s mi i) := by
+    funext s i
+    rcases hn i with h | h
+    · cases hk : intKind i <;> simp [h, hk, storeVRef]
+    · simp [h, storeVRef]
+  rw [this]
+  exact rebindLoop_eq (fun p => p) _ s mi hwf (fun s' i => rfl)
+
+/-- merge with attributes: `merge` as written never reads an attribute of its inputs (the translated loop `mergeBody` touches
+`vertices`, `edges`, `faces`, `cells` only), so in the model with attributes the merged mesh has NO attribute, owns a new connectivity
+handler, and the attributes of the inputs are untouched -/
+theorem merge_drops_attributes (s : StateX) (ids : List Nat) (ms : List Mesh) (hl : lookupAll s.st.meshes ids = some ms) :
+    (stepX s (.base (.merge ids))).extras = s.extras ++ [{ attr := none, conn := s.conns.length }] ∧
+    (stepX s (.base (.merge ids))).st = newMesh s.st (Generated.C06Src.mergeRun (coords s.st.heap) ms).verts
+      (Generated.C06Src.mergeRun (coords s.st.heap) ms).edges (Generated.C06Src.mergeRun (coords s.st.heap) ms).faces
+      (Generated.C06Src.mergeRun (coords s.st.heap) ms).cells := by
+  have hlen : s.st.meshes.length < (step s.st (.merge ids)).meshes.length := by
+    simp [step, mergeMeshes, hl, newMesh, alloc]
+  simp only [stepX, hlen, if_true, pushPlain, mergeRun_bridge]
+  exact ⟨by first | trivial | rfl, by simp [step, mergeMeshes, hl]⟩
+
 /-- `load` as written returns a mesh whose vectors are the NEW objects built by the reader -/
 theorem load_bridge (vs : List V3) (e f c : List (List Nat)) (d : Option Int) (raw : Bool) (s : State) :
     Generated.C06Src.load vs e f c d raw s = newMesh s vs e f c := by
